@@ -94,6 +94,28 @@ def min_amp(buf):
     return m
 
 
+def received(it):
+    """the bits that actually arrive: the transmitted frame with every smeared bit inverted"""
+    v = int(it["msg"], 16)
+    nb = len(it["msg"]) * 4
+    for pos in it.get("smear", ()):
+        v ^= 1 << (nb - 1 - pos)
+    return "%0*X" % (nb // 4, v)
+
+
+def expected(items):
+    """-> (frames that must come out, in order; frames that may come out in addition).  What must come out is what *arrives* admissibly - a
+    smear can also turn a damaged squitter into a valid one; a valid squitter that arrives smeared may be dropped or handed over repaired."""
+    want, repaired = [], set()
+    for it in items:
+        rx = received(it)
+        if admissible(rx):
+            want.append(rx)
+        elif it.get("smear") and admissible(it["msg"]):
+            repaired.add(it["msg"])
+    return want, repaired
+
+
 def matches(got, want, repaired):
     """the returned frames are the wanted ones, in order; in between, the repaired form of a smeared squitter may appear (a receiver may
     drop such a frame or mend it).  A clean frame and a smeared one may carry the same bits."""
@@ -192,8 +214,7 @@ def chk_case(case, note):
         if r[0] != "ok":
             return "_process_buffer raised %r on buffer %d" % (r[1:], bi)
         got = [m[0] for m in r[1]]
-        want = [it["msg"] for it in buf["items"] if admissible(it["msg"]) and not it.get("smear")]
-        repaired = {it["msg"] for it in buf["items"] if it.get("smear")}   # a receiver may drop a smeared squitter or hand over its repaired form, never the received bits
+        want, repaired = expected(buf["items"])   # a receiver may drop a smeared squitter or hand over its repaired form, never inadmissible received bits
         for g in got:
             if not isinstance(g, str) or g != g.upper() or len(g) not in (14, 28):
                 return "returned %r: not an upper-case hex frame of 14/28 digits" % (g,)
@@ -257,8 +278,7 @@ def chk_iq(case, note):
             return "_read_callback raised %r" % (r[1:],)
         if k < len(pieces) - 1 and rd.got:
             return "_read_callback handed over %r before the sample buffer had filled" % rd.got
-    want = [it["msg"] for it in case["items"] if admissible(it["msg"]) and not it.get("smear")]
-    repaired = {it["msg"] for it in case["items"] if it.get("smear")}
+    want, repaired = expected(case["items"])
     for g in rd.got:
         if len(g) == 28 and int(g[:2], 16) >> 3 == 17 and crc24.remainder(int(g, 16), 112) != 0:
             return "IQ samples through _read_callback: handle_messages received DF17 frame %s whose checksum is non-zero" % g
@@ -318,8 +338,7 @@ def chk_long(case, note):
         slots += [None] * (case["total"] - len(slots))
     noise = np.resize(tile, len(slots)).tolist()
     samples = [s if s is not None else noise[k] for k, s in enumerate(slots)]
-    want = [it["msg"] for it in case["items"] if admissible(it["msg"]) and not it.get("smear")]
-    repaired = {it["msg"] for it in case["items"] if it.get("smear")}
+    want, repaired = expected(case["items"])
     if case["kind"] == "oversize-iq":
         phase = np.resize(np.array([unit(case["pseed"], k) for k in range(2048)]), len(samples))
         iq = np.array(samples) * np.exp(2j * np.pi * phase)
